@@ -18,8 +18,9 @@ Inductive signer := Delegated (a : N) | External (v k : N).
 (* ContextRuleType *)
 Inductive ctype := TDefault | TCall (a : N) | TCreate (w : N).
 (* auth::Context: contract call (contract, fn name), create contract (wasm hash),
-   create contract with constructor (wasm hash) *)
-Inductive ctx := CCall (a f : N) | CCreate (w : N) | CCreateCtor (w : N).
+   create contract with constructor (wasm hash); CTransfer a amt = the contract call
+   transfer(from, to, amt) of contract a (the shape the spending-limit policy looks at) *)
+Inductive ctx := CCall (a f : N) | CCreate (w : N) | CCreateCtor (w : N) | CTransfer (a : N) (amt : Z).
 (* what the harness knows about a supplied signature: produced for the right key and
    payload / anything else / makes the verifier trap *)
 Inductive sigc := SGood | SBad | STrap.
@@ -52,6 +53,7 @@ Definition ctx_eqb (x y : ctx) : bool :=
   | CCall a f, CCall b g => N.eqb a b && N.eqb f g
   | CCreate a, CCreate b => N.eqb a b
   | CCreateCtor a, CCreateCtor b => N.eqb a b
+  | CTransfer a x, CTransfer b y => N.eqb a b && (x =? y)
   | _, _ => false
   end.
 Definition sigc_eqb (x y : sigc) : bool :=
@@ -74,6 +76,7 @@ Proof.
   - rewrite andb_true_iff, !N.eqb_eq. split; [intros [-> ->]; reflexivity|intros H; inversion H; auto].
   - rewrite N.eqb_eq. split; congruence.
   - rewrite N.eqb_eq. split; congruence.
+  - rewrite andb_true_iff, N.eqb_eq, Z.eqb_eq. split; [intros [-> ->]; reflexivity|intros H; inversion H; auto].
 Qed.
 Lemma sigc_eqb_eq x y : sigc_eqb x y = true <-> x = y.
 Proof. destruct x, y; cbn; split; congruence. Qed.
@@ -171,7 +174,9 @@ Qed.
 Record oracles := mkOracles {
   o_verify : N -> N -> sigc -> option bool;                       (* verifier key sig *)
   o_can : policy -> ctx -> list signer -> rule -> option bool;
-  o_enforce : policy -> ctx -> list signer -> rule -> bool;       (* true = returns normally *)
+  (* true = returns normally; the first argument lists the enforce calls already made during this
+     check (enforce hooks are stateful: a later call sees the effects of the earlier ones) *)
+  o_enforce : list event -> policy -> ctx -> list signer -> rule -> bool;
   o_install : policy -> N -> rule -> bool;
   o_uninstall : policy -> rule -> bool }.
 
@@ -217,7 +222,7 @@ Definition get_context_rules (a : acct) (t : ctype) : res (list rule) := mapM (g
 (* ------------------------------------------------------------------------- *)
 
 Definition ctx_type (c : ctx) : ctype :=
-  match c with CCall a _ => TCall a | CCreate w => TCreate w | CCreateCtor w => TCreate w end.
+  match c with CCall a _ => TCall a | CCreate w => TCreate w | CCreateCtor w => TCreate w | CTransfer a _ => TCall a end.
 
 Definition expired (now : Z) (r : rule) : bool :=
   match r_valid r with Some u => u <? now | None => false end.
@@ -299,27 +304,30 @@ Section CheckAuth.
         Ok ((r, c, au) :: vs, l ++ l')
     end.
 
-  Fixpoint enforce_policies (ps : list policy) (c : ctx) (au : list signer) (r : rule) : res (list event) :=
+  (* [pre] = the enforce calls made so far in this check *)
+  Fixpoint enforce_policies (pre : list event) (ps : list policy) (c : ctx) (au : list signer) (r : rule)
+    : res (list event) :=
     match ps with
     | [] => Ok []
     | p :: rest =>
-        if o_enforce O p c au r then do l <- enforce_policies rest c au r; Ok (EEnforce p c au r :: l)
+        if o_enforce O pre p c au r
+        then do l <- enforce_policies (pre ++ [EEnforce p c au r]) rest c au r; Ok (EEnforce p c au r :: l)
         else Fail
     end.
 
-  Fixpoint enforce_all (vs : list (rule * ctx * list signer)) : res (list event) :=
+  Fixpoint enforce_all (pre : list event) (vs : list (rule * ctx * list signer)) : res (list event) :=
     match vs with
     | [] => Ok []
     | (r, c, au) :: rest =>
-        do l <- enforce_policies (r_policies r) c au r;
-        do l' <- enforce_all rest; Ok (l ++ l')
+        do l <- enforce_policies pre (r_policies r) c au r;
+        do l' <- enforce_all (pre ++ l) rest; Ok (l ++ l')
     end.
 
   Definition do_check_auth (a : acct) (now : Z) (auths : list addr) (sigs : list (signer * sigc))
     (cs : list ctx) : res (list event) :=
     do lv <- authenticate auths sigs;
     do '(vs, lc) <- validate_all a now cs (map fst sigs);
-    do le <- enforce_all vs;
+    do le <- enforce_all [] vs;
     Ok (lv ++ lc ++ le).
 
   (* ----------------------------------------------------------------------- *)
@@ -497,18 +505,23 @@ Definition eval_pred (q : pred) (c : ctx) (au : list signer) : option bool :=
   | PFalse => Some false
   | PTrap => None
   | PMin n => Some (n <=? zlen au)
-  | PCall a => Some (match c with CCall b _ => N.eqb a b | _ => false end)
-  | PNotCall a => Some (match c with CCall b _ => negb (N.eqb a b) | _ => true end)
+  | PCall a => Some (match c with CCall b _ | CTransfer b _ => N.eqb a b | _ => false end)
+  | PNotCall a => Some (match c with CCall b _ | CTransfer b _ => negb (N.eqb a b) | _ => true end)
   | PHas s => Some (mem_s s au)
   end.
 
-(* the collaborator environment of a run: the answer table of the mock policies and the state
-   of the one REAL policy that is wired in (policies/simple_threshold.rs, policy index
-   [real_thr]): its installed threshold per rule id *)
+(* the collaborator environment of a run: the answer table of the mock policies, and the state of
+   the two REAL policies that are wired in: policies/simple_threshold.rs (policy index [real_thr]:
+   installed threshold per rule id) and policies/spending_limit.rs through the example policy
+   contract (policy index [real_spend]: limit, period, spending history and cached total per rule
+   id), plus the ledger those policies see *)
 Definition mtable := list (policy * Z * pmode).
-Record modes := mkModes { md_table : mtable; md_thr : list (Z * Z) }.
-Definition modes0 : modes := mkModes [] [].
+Record spend := mkSpend { sp_limit : Z; sp_period : Z; sp_hist : list (Z * Z) (* amount, ledger *); sp_cached : Z }.
+Record modes := mkModes { md_table : mtable; md_thr : list (Z * Z); md_spend : list (Z * spend); md_now : Z }.
+Definition modes0 : modes := mkModes [] [] [] 0.
 Definition real_thr : policy := 7%N.
+Definition real_spend : policy := 8%N.
+Definition max_history : Z := 1000.                 (* MAX_HISTORY_ENTRIES *)
 
 Fixpoint mtable_get (ms : mtable) (p : policy) (id : Z) : pmode :=
   match ms with
@@ -517,12 +530,20 @@ Fixpoint mtable_get (ms : mtable) (p : policy) (id : Z) : pmode :=
   end.
 Definition mode_of (ms : modes) (p : policy) (id : Z) : pmode := mtable_get (md_table ms) p id.
 Definition set_mode (p : policy) (id : Z) (m : pmode) (ms : modes) : modes :=
-  mkModes ((p, id, m) :: md_table ms) (md_thr ms).
+  mkModes ((p, id, m) :: md_table ms) (md_thr ms) (md_spend ms) (md_now ms).
+Definition adv_modes (n : Z) (ms : modes) : modes :=
+  mkModes (md_table ms) (md_thr ms) (md_spend ms) (md_now ms + n).
 
 Fixpoint thr_get (t : list (Z * Z)) (id : Z) : option Z :=
   match t with [] => None | (i, v) :: r => if id =? i then Some v else thr_get r id end.
 Definition thr_remove (t : list (Z * Z)) (id : Z) : list (Z * Z) := filter (fun iv => negb (fst iv =? id)) t.
 Definition thr_of (ms : modes) (id : Z) : option Z := thr_get (md_thr ms) id.
+Definition set_thr (id t : Z) (ms : modes) : modes :=
+  mkModes (md_table ms) ((id, t) :: thr_remove (md_thr ms) id) (md_spend ms) (md_now ms).
+
+Fixpoint spend_get (t : list (Z * spend)) (id : Z) : option spend :=
+  match t with [] => None | (i, v) :: r => if id =? i then Some v else spend_get r id end.
+Definition spend_remove (t : list (Z * spend)) (id : Z) : list (Z * spend) := filter (fun iv => negb (fst iv =? id)) t.
 
 Definition sig_verdict (d : sigc) : option bool :=
   match d with SGood => Some true | SBad => Some false | STrap => None end.
@@ -531,35 +552,137 @@ Definition sig_verdict (d : sigc) : option bool :=
 Definition thr_met (ms : modes) (au : list signer) (r : rule) : bool :=
   match thr_of ms (r_id r) with Some t => t <=? zlen au | None => false end.
 
+(* ---- spending_limit.rs ---- *)
+(* current_ledger.saturating_sub(period_ledgers) *)
+Definition cutoff (now period : Z) : Z := Z.max 0 (now - period).
+(* can_enforce's scan: total of the leading entries at or before the cutoff, and whether the
+   remaining history is at capacity; None = i128 overflow trap of [expired_total += amount] *)
+Fixpoint expired_scan (h : list (Z * Z)) (cut : Z) (acc : Z) : option (Z * list (Z * Z)) :=
+  match h with
+  | [] => Some (acc, [])
+  | (amt, led) :: rest =>
+      if led <=? cut then (if in_i128 (acc + amt) then expired_scan rest cut (acc + amt) else None)
+      else Some (acc, h)
+  end.
+Definition spend_can (d : spend) (now : Z) (c : ctx) (au : list signer) : option bool :=
+  if isnil au then Some false else
+  match c with
+  | CTransfer _ amt =>
+      match expired_scan (sp_hist d) (cutoff now (sp_period d)) 0 with
+      | None => None
+      | Some (expired, remaining) =>
+          if negb (isnil remaining) && (max_history <=? zlen remaining) then Some false
+          else if negb (in_i128 (sp_cached d - expired)) then None
+          else if negb (in_i128 (sp_cached d - expired + amt)) then None
+          else Some (sp_cached d - expired + amt <=? sp_limit d)
+      end
+  | _ => Some false
+  end.
+(* enforce: drop the expired leading entries, refuse beyond the limit or at capacity, record *)
+Definition spend_enforce (d : spend) (now : Z) (c : ctx) (au : list signer) : option spend :=
+  if isnil au then None else
+  match c with
+  | CTransfer _ amt =>
+      match expired_scan (sp_hist d) (cutoff now (sp_period d)) 0 with
+      | None => None
+      | Some (removed, remaining) =>
+          let cached := sp_cached d - removed in
+          if negb (in_i128 cached) || negb (in_i128 (cached + amt)) then None
+          else if sp_limit d <? cached + amt then None
+          else if max_history <=? zlen remaining then None
+          else Some (mkSpend (sp_limit d) (sp_period d) (remaining ++ [(amt, now)]) (cached + amt))
+      end
+  | _ => None
+  end.
+
+(* the state a later enforce call of this check sees: the stored one after the enforce calls already
+   made for the same rule *)
+Fixpoint spend_replay (d : option spend) (now : Z) (id : Z) (pre : list event) : option spend :=
+  match pre with
+  | [] => d
+  | EEnforce p c au r :: rest =>
+      if N.eqb p real_spend && (r_id r =? id)
+      then spend_replay (match d with Some x => spend_enforce x now c au | None => None end) now id rest
+      else spend_replay d now id rest
+  | _ :: rest => spend_replay d now id rest
+  end.
+
+(* installation parameter of the spending-limit policy, packed in one number: limit = n / 8,
+   period = the (n mod 8)-th entry of a fixed table of period lengths *)
+Definition spend_limit_of (n : N) : Z := Z.of_N n / 8.
+Definition spend_period_of (n : N) : Z :=
+  nth (Z.to_nat (Z.of_N n mod 8)) [0; 1; 2; 5; 20; 100; 17281; 1000000] 0.
+
+(* The host forbids contract re-entry.  While the threshold policy's own set_threshold entry point
+   is the running top-level call (the DIRECT call, not the one through the account's `execute`),
+   the account's __check_auth cannot call back into that policy contract: every can_enforce of it
+   traps.  Marked in the environment by a reserved entry of the answer table (rule ids are >= 0). *)
+Definition thr_busy (ms : modes) : bool :=
+  match m_can (mode_of ms real_thr (-1)) with PTrap => true | _ => false end.
+Definition mark_busy (ms : modes) : modes := set_mode real_thr (-1) (mkMode true true PTrap PTrue) ms.
+
 Definition can_answer (ms : modes) (p : policy) (c : ctx) (au : list signer) (r : rule) : option bool :=
-  if N.eqb p real_thr then Some (thr_met ms au r)
+  if N.eqb p real_thr then (if thr_busy ms then None else Some (thr_met ms au r))
+  else if N.eqb p real_spend then
+    match spend_get (md_spend ms) (r_id r) with
+    | Some d => spend_can d (md_now ms) c au
+    | None => Some false
+    end
   else eval_pred (m_can (mode_of ms p (r_id r))) c au.
-Definition enf_answer (ms : modes) (p : policy) (c : ctx) (au : list signer) (r : rule) : bool :=
+Definition enf_answer (ms : modes) (pre : list event) (p : policy) (c : ctx) (au : list signer) (r : rule) : bool :=
   if N.eqb p real_thr then thr_met ms au r
+  else if N.eqb p real_spend then
+    match spend_replay (spend_get (md_spend ms) (r_id r)) (md_now ms) (r_id r) pre with
+    | Some d => match spend_enforce d (md_now ms) c au with Some _ => true | None => false end
+    | None => false
+    end
   else match eval_pred (m_enf (mode_of ms p (r_id r))) c au with Some true => true | _ => false end.
-(* simple_threshold::install: not yet installed for this rule, 1 <= threshold <= number of signers *)
+(* simple_threshold::install: not yet installed for this rule, 1 <= threshold <= number of signers;
+   spending_limit::install: not yet installed, limit > 0, period > 0 *)
 Definition install_answer (ms : modes) (p : policy) (n : N) (r : rule) : bool :=
   if N.eqb p real_thr then
     match thr_of ms (r_id r) with
     | Some _ => false
     | None => (1 <=? Z.of_N n) && (Z.of_N n <=? zlen (r_signers r))
     end
+  else if N.eqb p real_spend then
+    match spend_get (md_spend ms) (r_id r) with
+    | Some _ => false
+    | None => (0 <? spend_limit_of n) && (0 <? spend_period_of n)
+    end
   else m_install (mode_of ms p (r_id r)).
 Definition uninstall_answer (ms : modes) (p : policy) (r : rule) : bool :=
-  if N.eqb p real_thr then true else m_uninstall (mode_of ms p (r_id r)).
+  if N.eqb p real_thr || N.eqb p real_spend then true else m_uninstall (mode_of ms p (r_id r)).
 
 Definition oracles_of (ms : modes) : oracles :=
   mkOracles (fun _ _ d => sig_verdict d) (can_answer ms) (enf_answer ms) (install_answer ms) (uninstall_answer ms).
 
-(* the surviving install / uninstall calls of the real policy change its state *)
-Definition apply_event (t : list (Z * Z)) (e : event) : list (Z * Z) :=
+(* the surviving install / uninstall / enforce calls of the real policies change their state *)
+Definition apply_event (ms : modes) (e : event) : modes :=
   match e with
-  | EInstall p n r => if N.eqb p real_thr then (r_id r, Z.of_N n) :: thr_remove t (r_id r) else t
-  | EUninstall p r => if N.eqb p real_thr then thr_remove t (r_id r) else t
-  | _ => t
+  | EInstall p n r =>
+      if N.eqb p real_thr then set_thr (r_id r) (Z.of_N n) ms
+      else if N.eqb p real_spend then
+        mkModes (md_table ms) (md_thr ms)
+                ((r_id r, mkSpend (spend_limit_of n) (spend_period_of n) [] 0) :: spend_remove (md_spend ms) (r_id r)) (md_now ms)
+      else ms
+  | EUninstall p r =>
+      if N.eqb p real_thr then mkModes (md_table ms) (thr_remove (md_thr ms) (r_id r)) (md_spend ms) (md_now ms)
+      else if N.eqb p real_spend then mkModes (md_table ms) (md_thr ms) (spend_remove (md_spend ms) (r_id r)) (md_now ms)
+      else ms
+  | EEnforce p c au r =>
+      if N.eqb p real_spend then
+        match spend_get (md_spend ms) (r_id r) with
+        | Some d => match spend_enforce d (md_now ms) c au with
+                    | Some d' => mkModes (md_table ms) (md_thr ms) ((r_id r, d') :: spend_remove (md_spend ms) (r_id r)) (md_now ms)
+                    | None => ms
+                    end
+        | None => ms
+        end
+      else ms
+  | _ => ms
   end.
-Definition apply_log (ms : modes) (l : list event) : modes :=
-  mkModes (md_table ms) (fold_left apply_event l (md_thr ms)).
+Definition apply_log (ms : modes) (l : list event) : modes := fold_left apply_event l ms.
 
 Inductive call :=
 | Construct (signers : list signer) (policies : list (policy * N))
@@ -572,12 +695,21 @@ Inductive call :=
 | CheckAuth (sigs : list (signer * sigc)) (auths : list addr) (cs : list ctx)
 (* end to end: a contract call tree in which every node requires the account's
    authorisation; cs = the contexts the host derives from the tree *)
-| Invoke (sigs : list (signer * sigc)) (auths : list addr) (cs : list ctx).
+| Invoke (sigs : list (signer * sigc)) (auths : list addr) (cs : list ctx)
+(* the threshold policy's own set_threshold(t, rule, account) entry point, which requires the
+   account's authorisation: called by the account through its `execute` entry point (the host runs
+   __check_auth on the call of the account itself) or directly (on the call of the policy
+   contract); nsig = the number of signers of the rule handed over as argument *)
+| SetThreshold (via_execute : bool) (sigs : list (signer * sigc)) (auths : list addr) (id t nsig : Z).
 
 Record state := mkState { s_now : Z; s_deployed : bool; s_acct : acct; s_modes : modes }.
 Definition init : state := mkState 0 false acct0 modes0.
 
 Definition self : N := 0%N.
+(* indices of the harness tables: the threshold policy among the callable contracts; fn names *)
+Definition thr_callee : N := 4%N.
+Definition fn_execute : N := 11%N.
+Definition fn_set_threshold : N := 12%N.
 
 Definition outcome := res (option rule * list event).
 
@@ -605,7 +737,7 @@ Definition step (c : cfg) (st : state) (cl : call) : state * outcome :=
            | Fail => (st, Fail)
            end
   | Advance n =>
-      if (0 <=? n) && in_u32 (s_now st + n) then (mkState (s_now st + n) (s_deployed st) (s_acct st) (s_modes st), Ok (None, []))
+      if (0 <=? n) && in_u32 (s_now st + n) then (mkState (s_now st + n) (s_deployed st) (s_acct st) (adv_modes n (s_modes st)), Ok (None, []))
       else (st, Fail)
   | SetMode p id m => (mkState (s_now st) (s_deployed st) (s_acct st) (set_mode p id m (s_modes st)), Ok (None, []))
   | Admin sigs auths op =>
@@ -619,7 +751,17 @@ Definition step (c : cfg) (st : state) (cl : call) : state * outcome :=
   | CheckAuth sigs auths cs | Invoke sigs auths cs =>
       if negb (s_deployed st) then (st, Fail)
       else match do_check_auth O (s_acct st) (s_now st) auths sigs cs with
-           | Ok l => (st, Ok (None, l))
+           | Ok l => (mkState (s_now st) (s_deployed st) (s_acct st) (apply_log (s_modes st) l), Ok (None, l))
+           | Fail => (st, Fail)
+           end
+  | SetThreshold via sigs auths id t nsig =>
+      if negb (s_deployed st) then (st, Fail)
+      else match do_check_auth (if via then O else oracles_of (mark_busy (s_modes st))) (s_acct st) (s_now st) auths sigs
+                   [if via then CCall self fn_execute else CCall thr_callee fn_set_threshold] with
+           | Ok l =>
+               if (1 <=? t) && (t <=? nsig)       (* validate_and_set_threshold *)
+               then (mkState (s_now st) (s_deployed st) (s_acct st) (set_thr id t (apply_log (s_modes st) l)), Ok (None, l))
+               else (st, Fail)
            | Fail => (st, Fail)
            end
   end.
